@@ -1531,6 +1531,8 @@ pub enum Family {
   ChoiceOfMaps,
   AbnfNest,
   OptionalRun,
+  JoinRepeat,
+  PatternRepeat,
 }
 
 pub const FAMILIES: &[Family] = &[
@@ -1554,6 +1556,8 @@ pub const FAMILIES: &[Family] = &[
   Family::ChoiceOfMaps,
   Family::AbnfNest,
   Family::OptionalRun,
+  Family::JoinRepeat,
+  Family::PatternRepeat,
 ];
 
 pub struct Case {
@@ -1650,6 +1654,26 @@ pub fn family_case(f: Family, n: usize) -> Case {
     Family::AbnfNest => {
       let g = format!("r = {}\"a\"{}", "*(".repeat(n), ")".repeat(n));
       mk(format!("root = tstr .abnf {}\n", cddl_text_literal(&g)), Doc::Text("a".repeat(n.min(40))))
+    }
+    Family::JoinRepeat => {
+      // the classic adversary of a backtracking matcher: the same marker n/3 times between variable parts, a
+      // final marker that never occurs, and a text made of the marker only
+      let k = (n / 3).max(1);
+      let mut parts: Vec<String> = Vec::new();
+      for _ in 0..k {
+        parts.push("tstr".into());
+        parts.push("\"a\"".into());
+      }
+      parts.push("tstr".into());
+      parts.push("\"b\"".into());
+      mk(format!("root = tstr .join [{}]\n", parts.join(", ")), Doc::Text("a".repeat(n)))
+    }
+    Family::PatternRepeat => {
+      // nested repetition against a run that almost matches, through every pattern-matching controller
+      mk(
+        "root = tstr .regexp \"(a*)*b\" / tstr .pcre \"^(a+)+$\" / tstr .abnf \"r\\nr = *(*\\\"a\\\") \\\"b\\\"\\n\" / tstr .iregexp \"(a|aa)*b\"\n".into(),
+        Doc::Text(format!("{}c", "a".repeat(n))),
+      )
     }
     Family::OptionalRun => {
       let fields: Vec<String> = (0..n).map(|_| "? int".to_string()).collect();
